@@ -380,11 +380,11 @@ fn small_node() -> impl Strategy<Value = N> {
     })
 }
 
-fn mapping() -> impl Strategy<Value = N> {
+pub fn mapping() -> impl Strategy<Value = N> {
     proptest::collection::vec((prop_oneof![4 => scalar_key(), 1 => small_node()], prop_oneof![3 => (0i64..100).prop_map(N::Int), 1 => small_node()]), 0..7).prop_map(N::Map)
 }
 
-fn probes_for(node: &N, extra: &[String]) -> Vec<String> {
+pub fn probes_for(node: &N, extra: &[String]) -> Vec<String> {
     let mut v: Vec<String> = vec![];
     if let N::Map(p) = node {
         for (k, _) in p {
